@@ -1634,7 +1634,22 @@ func c15EnumValues(c *Ctx, r *Report, rule string) {
 		want, known := ts32297Enums[name]
 		key := nt.Obj().Name() + "." + name
 		if !known {
-			r.viol(rule, key, c.rel(k.Pos()), fmt.Sprintf("constant %s = %d of a TS 32.297 enumeration is not in the checker's table of specified values: cannot be compared with the specification", name, v))
+			// a name the table does not know (a value of a later release of the specification, a
+			// vendor value): it must fit the field and must not take a value the specification gives
+			// to one of the known names of the same enumeration
+			width := map[string]uint{"FileClosureTriggerReasonType": 8, "ReleaseIdentifierType": 3, "DataRecordFormatType": 3, "TsNumberIdentifier": 5}[nt.Obj().Name()]
+			clash := ""
+			for _, other := range names {
+				ok2, isK := pkg.Types.Scope().Lookup(other).(*types.Const)
+				if !isK || other == name || !types.Identical(ok2.Type(), k.Type()) {
+					continue
+				}
+				if w, spec := ts32297Enums[other]; spec && w == v {
+					clash = other
+				}
+			}
+			r.check(exact && v >= 0 && v < int64(1)<<width && clash == "", rule, key, c.rel(k.Pos()), fmt.Sprintf("= %d: not a name of the checker's table; fits the %d-bit field and takes no specified value", v, width),
+				fmt.Sprintf("constant %s = %d is not in the checker's table of TS 32.297 values and %s", name, v, map[bool]string{true: "takes the value the specification assigns to " + clash, false: fmt.Sprintf("does not fit the %d-bit field", width)}[clash != ""]))
 			continue
 		}
 		r.check(exact && v == want, rule, key, c.rel(k.Pos()), fmt.Sprintf("= %d as specified", want), fmt.Sprintf("%s is %d, TS 32.297 assigns %d: a header written with this name carries another meaning for every reader that follows the specification", name, v, want))
